@@ -332,6 +332,8 @@ def project(hist, rng, kinds, gate="send.genid", tagbase=10):
             steps.append({"a": "Rotate"})
         elif a == "Close":
             steps.append({"a": "Close"})
+        elif a == "BadCall":
+            steps.append({"a": "BadCall"})
     steps += [{"a": "Drain"}, {"a": "Settle"}]
     return steps
 
